@@ -53,6 +53,62 @@ def _unadapted(pair):
     return value is None and u != ""
 
 
+def _adapt_all(ex, values):
+    """values of member_schema(v) for each v; ("raises", ExcName) if a constructor raises"""
+    out = []
+    for v in values:
+        try:
+            out.append(ex.root.member_schema(v).value)
+        except Exception as e:
+            return ("raises", type(e).__name__)
+    return out
+
+
+def _expected_after_set(ex, value):
+    """members' values after seq.set(value): the adapted items of the iterable; [] when it is not iterable or a member
+    constructor raises; None = not predicted"""
+    try:
+        items = list(iter(value))
+    except TypeError:
+        return []
+    r = _adapt_all(ex, items)
+    if isinstance(r, tuple):
+        return []
+    return r
+
+
+def _expected_after_default(ex, before_values):
+    root = ex.root
+    d = root.default_value
+    if d is None:
+        return list(before_values)
+    if G.kind_of_element(root) == "list":
+        if isinstance(d, int):
+            try:
+                return [root.member_schema.from_defaults().value for _ in range(d)]
+            except Exception:
+                return None
+        return _expected_after_set(ex, d)
+    try:
+        r = _adapt_all(ex, list(d))
+    except TypeError:
+        return None
+    return None if isinstance(r, tuple) else r
+
+
+def _expected_after_route(ex, init, out):
+    route = init["route"]
+    if isinstance(out, dict) and "exc" in out:
+        return [] if route in ("ctor_value", "from_defaults") else None
+    if route == "ctor":
+        return []
+    if route in ("ctor_value", "set"):
+        return _expected_after_set(ex, G.py(init.get("value")))
+    if route in ("from_defaults", "set_default"):
+        return _expected_after_default(ex, [])
+    return None
+
+
 def make_check():
     state = {"ref": None}
 
@@ -60,6 +116,8 @@ def make_check():
         fails = []
         root = ex.root
         kind = G.kind_of_element(root)
+
+        extra = {}
 
         def fail(clause, expected, observed):
             un = any(_leaf_unadapted(m) for m in root) or any(
@@ -70,11 +128,15 @@ def make_check():
                           "op": info.get("op"), "unadapted": un, "kind": kind,
                           "raised": type(raised).__name__ if raised is not None else None,
                           "plain": bool(info.get("args")) and info["args"][0][0] == "plain"})
+            fails[-1].update(extra)
 
         if info["init"]:
             ref = Ref()
             ref.items = [(m.value, m.u) for m in root]     # the list the construction route produced
             state["ref"] = ref
+            exp = _expected_after_route(ex, ex.case["init"], info["out"])
+            if exp is not None and exp != ref.values():
+                fail("route-builds-adapted-list", G.vj(exp), G.vj(ref.values()))
         else:
             ref = state["ref"]
             op = info["op"]
@@ -85,6 +147,8 @@ def make_check():
                 exp_exc = None
                 exp_ret = None
                 items = ref.items
+                before_pairs = list(ref.items)
+                handled = False
                 try:
                     args = None
                     if name in ("append", "insert", "setitem", "remove", "contains", "index", "count"):
@@ -127,9 +191,21 @@ def make_check():
                         elif op.get("key") == "ulen":
                             items.sort(key=lambda p: len(p[1]), reverse=bool(op["rev"]))
                         # sort() without a key: a list of elements raises TypeError; not demanded
-                    elif name in ("set", "set_default"):
-                        # construction routes: the reference restarts from what they produced
+                    elif name == "clear":
+                        items.clear()
+                    elif name == "imul":
+                        items *= op["n"]          # plain list semantics on the adapted items
+                    elif name in ("set", "set_default", "set_flat"):
+                        # construction routes: the reference restarts from what they produced ...
                         ref.items = [(m.value, m.u) for m in root]
+                        # ... which must be the adapted values of what was handed in
+                        exp = None
+                        if name == "set":
+                            exp = _expected_after_set(ex, G.py(op["v"]))
+                        elif name == "set_default":
+                            exp = _expected_after_default(ex, [v for v, _ in before_pairs])
+                        if exp is not None and raised is None and exp != ref.values():
+                            fail(name + "-builds-adapted-list", G.vj(exp), G.vj(ref.values()))
                     elif name == "len":
                         exp_ret = len(items)
                     elif name == "getitem":
@@ -145,7 +221,41 @@ def make_check():
                 except (IndexError, ValueError) as e:
                     exp_exc = type(e).__name__
                 items = ref.items
-                if args is None and name in ("append", "insert", "setitem", "remove", "contains", "index", "count",
+                if name in ("remove", "contains", "index", "count") and args:
+                    # equality searches: the statement's reference compares adapted VALUES; flatland compares
+                    # (value, u).  A divergence is filed under KF-C09-a only if what was observed is exactly what
+                    # the same call gives on the list of (value, u) pairs.
+                    handled = True
+                    pair = args[0]
+                    vu_exc, vu_ret, vu_items = None, None, list(before_pairs)
+                    try:
+                        if name == "remove":
+                            del vu_items[before_pairs.index(pair)]
+                        elif name == "contains":
+                            vu_ret = pair in before_pairs
+                        elif name == "index":
+                            vu_ret = before_pairs.index(pair)
+                        else:
+                            vu_ret = before_pairs.count(pair)
+                    except ValueError:
+                        vu_exc = "ValueError"
+                    obs_exc = rname
+                    obs_ret = None if raised is not None or name == "remove" else \
+                        (bool(info["ret"][1]) if name == "contains" else info["ret"][1])
+                    actual_pairs = [(m.value, m.u) for m in root]
+                    agrees_value = (obs_exc == exp_exc) and (raised is not None or name == "remove" or obs_ret == exp_ret) \
+                        and [v for v, _ in actual_pairs] == ref.values()
+                    if not agrees_value:
+                        extra["matches_value_u_list"] = (obs_exc == vu_exc and obs_ret == vu_ret and actual_pairs == vu_items)
+                        if obs_exc != exp_exc:
+                            fail("raises-like-list", exp_exc, obs_exc)
+                        elif name == "remove":
+                            fail("members-equal-list", G.vj(ref.values()), G.vj([v for v, _ in actual_pairs]))
+                        else:
+                            fail(name + "-equals-list", exp_ret, obs_ret)
+                        extra.clear()
+                    ref.items = actual_pairs       # keep the text forms in step (and report a divergence once)
+                elif args is None and name in ("append", "insert", "setitem", "remove", "contains", "index", "count",
                                              "extend", "iadd", "setslice"):
                     # the value was rejected by the member schema's constructor (e.g. an undeclared key of a
                     # Dict member): the call must have raised and changed nothing that the list sees — except
@@ -181,6 +291,20 @@ def make_check():
                             got = [x.value for x in ret[1]]
                             if got != [v for v, _ in exp_ret]:
                                 fail("getslice-equals-list", G.vj([v for v, _ in exp_ret]), G.vj(got))
+        # shape of an in-place item assignment (KF-C09-b): only member i may differ, and it is either unchanged or reset
+        if not info["init"] and info.get("op") and info["op"]["op"] == "setitem" and kind == "list" and info.get("args") \
+                and info["args"][0][0] == "plain" and "skip" not in (info["out"] if isinstance(info["out"], dict) else {}):
+            try:
+                old_vals = [v for v, _ in before_pairs]
+                now = [m.value for m in root]
+                i = info["op"]["i"]
+                i = i + len(old_vals) if i < 0 else i
+                blank = root.member_schema().value
+                extra["inplace_shape"] = (len(now) == len(old_vals) and 0 <= i < len(old_vals)
+                                          and all(now[j] == old_vals[j] for j in range(len(now)) if j != i)
+                                          and now[i] in (old_vals[i], blank))
+            except Exception:
+                extra["inplace_shape"] = False
         # the state clauses, after every step
         from flatland.schema.base import Element
         if any(not isinstance(m, Element) for m in root):
@@ -190,9 +314,10 @@ def make_check():
         if got != ref.values():
             fail("members-equal-list", G.vj(ref.values()), G.vj(got))
             ref.items = [(m.value, m.u) for m in root]     # resynchronise: report each divergence once
-        elif not info["init"] and info.get("op") and info["op"]["op"] == "remove":
-            # which of several equal-valued items went away is not visible in the values; keep the
-            # text forms (read by the sort keys only) in step with the element
+        else:
+            # the values agree; keep the text forms (read by the sort keys and by the (value, u) comparison of
+            # KF-C09-a only) in step with the element — e.g. `*=` re-feeds values, so a copy of a Dict member holding
+            # unadaptable text has the same value but not the same text
             ref.items = [(m.value, m.u) for m in root]
         if len(root) != len(ref.items):
             fail("len-equals-list", len(ref.items), len(root))
@@ -232,12 +357,14 @@ def make_check():
 
 
 def eq_search_with_unadapted(case, failure):
-    """class predicate of KF-C09-a"""
+    """class predicate of KF-C09-a: an equality search whose observed outcome (return value, exception, members
+    afterwards) is exactly the outcome of the same call on the list of (value, u) pairs, differs from the outcome on
+    the list of values, and unadaptable text (value None, u != '') is what separates the two"""
     op = failure.get("op") or {}
-    return failure.get("clause") in ("contains-equals-list", "index-equals-list", "count-equals-list",
-                                     "raises-like-list", "members-equal-list", "len-equals-list",
-                                     "value-equals-list") and op.get("op") in ("remove", "contains", "index", "count") \
-        and bool(failure.get("unadapted"))
+    return (op.get("op") in ("remove", "contains", "index", "count")
+            and failure.get("clause") in ("contains-equals-list", "index-equals-list", "count-equals-list",
+                                          "raises-like-list", "members-equal-list")
+            and failure.get("matches_value_u_list") is True and bool(failure.get("unadapted")))
 
 
 def _dictlike(v):
@@ -253,6 +380,7 @@ def failed_inplace_set(case, failure):
     return (failure.get("clause") in ("members-equal-list", "value-equals-list")
             and failure.get("kind") == "list" and op.get("op") == "setitem" and failure.get("plain")
             and (failure.get("raised") in ("KeyError", "TypeError") or not _dictlike((op.get("a") or {}).get("v")))
+            and failure.get("inplace_shape") is True
             and case["schema"]["subs"][0]["k"] in ("dict", "sparse"))
 
 
@@ -297,11 +425,16 @@ class C09(Property):
         "Flatland.C09.Proofs.C09_fullMembers_fails",
     ]
     level_text = "proof (partial)"
-    level_note = ("step_refines/run_refines: refinement to the CPython list functions for every listed call, over the "
-                  "(value,u) abstraction and scalar (Integer/String) member schemas; positional_step for every call and "
-                  "every member schema; the value-only reading (C09_Full) and arbitrary member schemas "
-                  "(C09_FullMembers) are refuted by witnesses (KF-C09-a, KF-C09-b); Dict/List members, set_default and "
-                  "sort() without key rest on correspondence + the real-list oracle")
+    level_note = ("THEOREM (partial): step_refines/run_refines — refinement to the CPython list functions, over the (value,u) "
+                  "abstraction, ONLY for Integer/String member schemas and plain arguments in {None,int,str} (or Elements "
+                  "of the member schema), for append/extend/+=/insert/item+slice assignment/item+slice deletion/pop/"
+                  "remove/reverse/clear/sort(key in {u,len u})/set(list)/len/getitem/getslice/in/index/count; run_refines "
+                  "needs EVERY call of the history in that set (a history containing set_default, key-less sort, "
+                  "set(non-list) or *= is not covered). positional_step — every call incl. *=, clear, set, set_default, "
+                  "every member schema. REFUTED readings: value-only (C09_Full, KF-C09-a), container members "
+                  "(C09_FullMembers, KF-C09-b). ORACLE ONLY: Dict/List members, set_default, *=, key-less sort, set_flat, "
+                  "results of set/set_default/construction routes (checked against the adapted input by the oracle), "
+                  "model paths answering `unsupported`")
     technique = "refinement proof (Lean 4) + differential testing against the implementation and a real Python list"
     trusted_base = [
         "CPython list semantics (index normalisation, PySlice_AdjustIndices, slice assignment/deletion, insert "
@@ -315,7 +448,9 @@ class C09(Property):
     assumptions = [
         "sort keys range over the family {u, len(u)} with and without reverse; sort() without key raises TypeError "
         "as a list of elements does (recorded non-defect) and is not compared with the reference list",
-        "`*=`, `+` and `*` are outside the property's operation list",
+        "`*=` (Sequence.__imul__, commit 33a67e3: fresh members from the members' values) is modelled and compared; "
+        "`+` and `*` return plain lists and are not element operations",
+        "re-inserting an element that is already a member (`l.append(l[0])`) is aliasing, outside the quantifier",
         "Element arguments are fresh or detached elements of the member schema (no aliasing)",
         "MultiValue.value is the first member's value (documented), the list clause is checked on iteration",
     ]
@@ -323,6 +458,7 @@ class C09(Property):
             "None/negative/out-of-range bounds and steps in {None,1,2,3,-1,-2,0}) on a List / Array / MultiValue of "
             "Integer, String or Dict members, started by a constructor/set/set_default/from_defaults route; arguments "
             "are plain values (valid, unadaptable, None), fresh Elements, or Elements detached earlier (pool); "
+            "Cases the Lean model does not cover (set_flat/from_flat, model paths answering unsupported) are marked oracle-only before the run and are not counted as validated traces (tag model=oracle-only). "
             "non-trivial = at least 3 calls changed the sequence or raised")
     quick_n = 40000
     thorough_n = 300000
@@ -368,7 +504,13 @@ class C09(Property):
                             _op({"op": "setslice", "sl": [3, 1, None], "as": [{"v": 1}, {"v": 2}]})]})
         return out
 
+    def has_model(self, case):
+        return not case.get("nomodel")
+
     def generate(self, rng, n, tier):
+        yield from G.mark_unmodelled(self, list(self._generate(rng, n, tier)))
+
+    def _generate(self, rng, n, tier):
         for _ in range(n):
             cid = G.Counter()
             kind = rng.choice(["list", "list", "array", "multi"])
@@ -391,9 +533,17 @@ class C09(Property):
                 member["default"] = G.gen_scalar_raw(rng)
             route = rng.choice(["ctor", "ctor_value", "ctor_value", "ctor_value", "set", "from_defaults", "set_default"])
             init = {"route": route, "value": G.gen_value(rng, schema, valid=not hostile)}
+            # set_flat / from_flat (oracle only: the flat-key parser is C01/C02's model): a tenth of the histories;
+            # Arrays/MultiValues are flattenable only with scalar members
+            flat = rng.random() < 0.1 and (kind == "list" or member["k"] != "dict")
+            if flat and rng.random() < 0.5:
+                init = {"route": rng.choice(["from_flat", "set_flat"]), "value": None, "pairs": G.gen_flat_pairs(rng, schema)}
             nops = rng.choice([1, 2, 3, 4, 6, 8, 10, 14])
-            ops = [_op(G.gen_seq_op(rng, member, valid=not hostile)) for _ in range(nops)]
-            yield {"schema": schema, "init": init, "ops": ops}
+            ops = [_op(G.gen_seq_op(rng, member, valid=not hostile, seq=schema if flat else None)) for _ in range(nops)]
+            case = {"schema": schema, "init": init, "ops": ops}
+            if G.has_flat(case):
+                case["nomodel"] = True
+            yield case
 
     # -- running
     def _run(self, case):
@@ -437,7 +587,7 @@ class C09(Property):
     def tags(self, case, obs):
         if any("view_raises" in st["view"] for st in obs["steps"]):
             return ["view-raises"]
-        t = ["kind=" + case["schema"]["k"], "member=" + case["schema"]["subs"][0]["k"], "route=" + case["init"]["route"],
+        t = ["model=" + ("oracle-only" if case.get("nomodel") else "compared"), "kind=" + case["schema"]["k"], "member=" + case["schema"]["subs"][0]["k"], "route=" + case["init"]["route"],
              "ops=%d" % len(case["ops"])]
         for o, st in zip(case["ops"], obs["steps"][1:]):
             out = st["out"]
